@@ -82,6 +82,15 @@ class SeqV:
         s.q, s.kind, s.rev = q, kind, rev
 
 
+class AliasV:
+    """a local name bound directly to a list-valued field (`xs = obj.f`): the same list object, so reads see the field's current
+    value and mutations through the local write through to the field"""
+    __slots__ = ("r", "key", "cls")
+
+    def __init__(s, r, key, cls):
+        s.r, s.key, s.cls = r, key, cls
+
+
 class ActV:
     __slots__ = ("a",)
 
@@ -201,6 +210,11 @@ class HeapExec(NumExec):
         s.fresh_n += 1
         return z3.Const(f"{hint}!{s.fresh_n}", sort)
 
+    def local(s, p, name):
+        """value of a local for sidecar invariants (aliases of list fields are resolved to the field's current value)"""
+        v = p.env[name]
+        return s.heap_get(p, v.key, v.r) if isinstance(v, AliasV) else v
+
     def now(s, p):
         if "__now__" not in p.env:
             p.env["__now__"] = NOW0
@@ -304,7 +318,10 @@ class HeapExec(NumExec):
     # ------------------------------------------------------------------ expressions
     def ev_Name(s, p, e):
         if e.id in p.env:
-            return p.env[e.id]
+            v = p.env[e.id]
+            if isinstance(v, AliasV):
+                return s.heap_get(p, v.key, v.r)
+            return v
         if e.id in ("True", "False", "None"):
             return {"True": True, "False": False, "None": None}[e.id]
         if e.id in ("float", "int", "bool", "str"):
@@ -774,6 +791,19 @@ class HeapExec(NumExec):
                     s.writes.add(key[1])
                     p.heap[key[1]] = z3.Store(p.heap[key[1]], owner.r, new)
                     return [(p, None)]
+            # mutation through a local that aliases a list-valued field
+            if isinstance(f, ast.Attribute) and f.attr in ("append", "clear", "extend") and isinstance(f.value, ast.Name) and isinstance(p.env.get(f.value.id), AliasV):
+                al = p.env[f.value.id]
+                cur = s.heap_get(p, al.key, al.r)
+                if f.attr == "clear":
+                    new = z3.Empty(cur.q.sort())
+                elif f.attr == "append":
+                    new = z3.Concat(cur.q, z3.Unit(s.unwrap(cur.kind, s.ev(p, n.value.args[0]), n)))
+                else:
+                    new = z3.Concat(cur.q, s.ev(p, n.value.args[0]).q)
+                s.writes.add(al.key)
+                p.heap[al.key] = z3.Store(p.heap[al.key], al.r, new)
+                return [(p, None)]
             # local list mutation: xs.append(v)
             if isinstance(f, ast.Attribute) and f.attr in ("append", "clear") and isinstance(f.value, ast.Name) and isinstance(p.env.get(f.value.id), (SeqV, tuple)):
                 cur = p.env[f.value.id]
@@ -787,6 +817,38 @@ class HeapExec(NumExec):
                     cur = SeqV(z3.Empty(z3.SeqSort(sort_of(kind))), kind)
                 p.env[f.value.id] = SeqV(z3.Concat(cur.q, z3.Unit(s.unwrap(cur.kind, v, n))), cur.kind)
                 return [(p, None)]
+        if isinstance(n, (ast.Assign, ast.AnnAssign)) and getattr(n, "value", None) is not None and isinstance(n.value, ast.Attribute):
+            tgts = n.targets if isinstance(n, ast.Assign) else [n.target]
+            if len(tgts) == 1 and isinstance(tgts[0], ast.Name):
+                try:
+                    owner = s.ev(p, n.value.value)
+                except Unsupported:
+                    owner = None
+                if isinstance(owner, RefV) and s.static_cls(p, owner):
+                    try:
+                        res = s.resolve_attr(s.static_cls(p, owner), n.value.attr)
+                    except Unsupported:
+                        res = None
+                    if res and res[0] == "field" and s.schema.fields[res[1]].startswith("seq:"):
+                        s.oblige(f"safety/line{n.lineno - s.fn_line}:attribute `{n.value.attr}` of None", p, owner.r != NONE)
+                        p.env[tgts[0].id] = AliasV(owner.r, res[1], s.static_cls(p, owner))
+                        return [(p, None)]
+        if isinstance(n, ast.Assign) and len(n.targets) == 1 and isinstance(n.targets[0], ast.Name) and isinstance(n.value, ast.IfExp):
+            # `x = a if c else b` with two different Python constants (e.g. the next state of a state machine): the path forks,
+            # so that the control variable stays concrete
+            try:
+                a_, b_ = s.ev(p.fork(), n.value.body), s.ev(p.fork(), n.value.orelse)
+            except Unsupported:
+                a_ = b_ = None
+            if isinstance(a_, int) and isinstance(b_, int) and not isinstance(a_, bool) and not isinstance(b_, bool) and a_ != b_:
+                c = z3.simplify(s.truth(s.ev(p, n.value.test), n, p))
+                out = []
+                for cond, val in ((c, a_), (z3.Not(c), b_)):
+                    if z3.is_false(z3.simplify(cond)):
+                        continue
+                    q = p.fork(); q.pc.append(cond); q.env[n.targets[0].id] = val
+                    out.append((q, None))
+                return out
         if isinstance(n, ast.If) and ast.unparse(n.test) == "settings.debugging":
             return [(p, None)]            # logging block: dropped by extraction (A-LOG)
         if isinstance(n, ast.If):
@@ -1011,6 +1073,8 @@ class HeapExec(NumExec):
             return ActV(z3.FreshConst(Act, hint))
         if isinstance(v, StrV):
             return StrV(z3.FreshConst(Str, hint))
+        if isinstance(v, AliasV):
+            return v
         if isinstance(v, bool):
             return Bool(z3.FreshConst(z3.BoolSort(), hint), False, True)
         if isinstance(v, int):
@@ -1103,7 +1167,59 @@ class HeapExec(NumExec):
         return after + breaks + outs
 
     def while_loop(s, p, n):
-        raise Unsupported(f"while loop at line {n.lineno}")
+        """while cond: body - with an invariant from the sidecar (k = number of completed iterations, a ghost; seq = None):
+        inv.init; for an arbitrary iteration: havoc, assume inv(k) and cond, run the body, assert inv(k+1); after the loop: inv and not cond
+        (or the state at a `break`).  Termination is NOT proved (partial correctness), unless the sidecar gives `variant`."""
+        lo = s.loop_index.get((n.lineno, n.col_offset))
+        if lo is None:
+            s.loop_ord += 1
+            lo = s.loop_ord
+        spec = s.loops.get(lo)
+        if spec is None:
+            raise Unsupported(f"while loop {lo} at line {n.lineno} has no invariant in the sidecar")
+        names = s.assigned_names(n.body)
+        now_entry = s.now(p)
+        names.add("__now__")
+        fields = s.written_fields(n.body) | set(spec.havoc_heap or ())
+        s.entry[lo] = p.fork()
+        label = spec.name or f"loop{lo}"
+        if spec.modifies is not None:
+            user_inv, ent, framed = spec.inv, s.entry[lo], sorted(fields - set(spec.modifies))
+            spec = LoopSpec(lambda ex, q, k_, sq: z3.And(user_inv(ex, q, k_, sq), *[q.heap[f] == ent.heap[f] for f in framed]),
+                            facts=spec.facts, havoc_heap=spec.havoc_heap, name=spec.name, ghost=spec.ghost, inst=spec.inst, cases=spec.cases)
+        s.oblige(f"{label}/inv.init", p, spec.inv(s, p, z3.IntVal(0), None), {"facts": spec.facts(s, p, z3.IntVal(0), None) if spec.facts else []})
+        k = z3.FreshInt(f"k{lo}")
+        outs, breaks, after = [], [], []
+        for case in (spec.cases or [None]):
+            ctag = "" if case is None else "[" + ",".join(f"{a_}={b_}" for a_, b_ in case.items()) + "]"
+            for phase in ("iter", "exit"):
+                h = p.fork()
+                s.havoc(h, [x for x in names if x in h.env], fields, f"W{lo}{phase[0]}")
+                if case:
+                    h.env.update(case)
+                h.env["__now__"] = z3.FreshInt("now"); h.pc.append(h.env["__now__"] >= now_entry)
+                h.pc += [k >= 0, spec.inv(s, h, k, None)] + (spec.facts(s, h, k, None) if spec.facts else []) + (spec.inst(s, h, k, None) if spec.inst else [])
+                c = z3.simplify(s.truth(s.ev(h, n.test), n, h))
+                if phase == "exit":
+                    if not z3.is_true(c):
+                        h.pc.append(z3.Not(c))
+                        after.append((h, None))
+                    continue
+                if z3.is_false(c):
+                    continue
+                h.pc.append(c)
+                for q, sig in s.block([h], n.body):
+                    if sig is None or sig[0] == "continue":
+                        if spec.ghost:
+                            q.pc += spec.ghost(s, q, k, None)
+                        s.oblige(f"{label}/inv.preserved{ctag}", q, spec.inv(s, q, k + 1, None), {"facts": spec.facts(s, q, k + 1, None) if spec.facts else []})
+                    elif sig[0] == "break":
+                        breaks.append((q, None))
+                    else:
+                        outs.append((q, sig))
+        if n.orelse:
+            raise Unsupported("while-else")
+        return after + breaks + outs
 
     # ------------------------------------------------------------------ running a function
     def run_fn(s, fn, p):
